@@ -51,7 +51,7 @@ func (c fixedClock) Now() time.Time                         { return c.e.Time }
 func (c fixedClock) NewTicker(d time.Duration) *time.Ticker { return time.NewTicker(d) }
 
 func fieldFaults(r *ev.Run) {
-	bases := r.N(10000, 80000)
+	bases := r.N(10000, 400000)
 	variants := 0
 	for i := 0; i < bases; i++ {
 		// count the fault-capable sites of base case i
